@@ -25,7 +25,7 @@ package boltz
 
 // a write goes ahead only if no error is pending and the checker (if any) selects the field
 //@ func (*TypedBucket).ProceedWithSet
-//@   props C13
+//@   props C13 C16 C07
 //@   assume bucket.ErrorHolderImpl != nil
 //@   pure
 //@   ensures[proceed-iff] result == (bucket.Err == nil && (checker == nil || fcUpd(checker, name)))
@@ -33,7 +33,7 @@ package boltz
 // setTyped: the value stored under name is the tag byte followed by the bytes; nil is the tag TypeNil alone
 //@ spec nilEnc() Str = (prepend 7 str_empty)
 //@ func (*TypedBucket).setTyped
-//@   props C13
+//@   props C13 C07
 //@   assume bucket.ErrorHolderImpl != nil && bucket.Bucket != nil
 //@   requires[no-pending-error] bucket.Err == nil
 //@   modifies bucket.Err, bktHas[bucket.Bucket], bktVal[bucket.Bucket]
@@ -187,12 +187,14 @@ package boltz
 //@   ensures[decoded] len(buf) == 8 ==> result != nil && *result == f64frombits(le64val(str(buf)))
 //@   ensures[wrong-size] len(buf) != 8 ==> result == nil
 //@ func FieldToFloat64
-//@   props C13
+//@   props C13 C01
 //@   pure
 //@   censures[deterministic-null] (result == nil) == f2fNull(fieldType, str(value), value == nil)
 //@   censures[deterministic-value] result != nil ==> *result == f2fVal(fieldType, str(value))
 //@   ensures[float64] fieldType == TypeFloat64 && len(value) == 8 ==> result != nil && *result == f64frombits(le64val(str(value)))
 //@   ensures[null] fieldType == TypeNil ==> result == nil
+//@   ensures[int32-widens] fieldType == TypeInt32 && len(value) == 4 ==> result != nil && *result == real(s32(le32val(str(value))))
+//@   ensures[int64-widens] fieldType == TypeInt64 && len(value) == 8 ==> result != nil && *result == real(s64(le64val(str(value))))
 //@ func (*TypedBucket).GetFloat64
 //@   props C13
 //@   pure
@@ -573,12 +575,12 @@ package boltz
 //@   ensures[skipped] !proceeds(ctx.Bucket, field, ctx.FieldChecker) ==> ctx.Bucket.Err == old(ctx.Bucket.Err) && kept(ctx.Bucket)
 //@   ensures[written] proceeds(ctx.Bucket, field, ctx.FieldChecker) && ctx.Bucket.Err == nil ==> wrote(ctx.Bucket, field, prepend(TypeInt64, le64(u64(value))))
 //@ func (*PersistContext).ProceedWithSet
-//@   props C13
+//@   props C13 C16 C07
 //@   assume ctx.Bucket != nil && ctx.Bucket.ErrorHolderImpl != nil
 //@   pure
 //@   ensures[proceed-iff] result == (ctx.Bucket.Err == nil && (ctx.FieldChecker == nil || fcUpd(ctx.FieldChecker, field)))
 //@ func (*PersistContext).SetRequiredString
-//@   props C13
+//@   props C13 C07
 //@   assume ctx.Bucket != nil && ctx.Bucket.ErrorHolderImpl != nil && ctx.Bucket.Bucket != nil
 //@   modifies ctx.Bucket.Err, bktHas[ctx.Bucket.Bucket], bktVal[ctx.Bucket.Bucket]
 //@   ensures[skipped] !proceeds(ctx.Bucket, field, ctx.FieldChecker) ==> ctx.Bucket.Err == old(ctx.Bucket.Err) && kept(ctx.Bucket)
